@@ -49,6 +49,11 @@ CLAIMED = {
             "<=2x2 objects with symbolic ego-relative positions, symbolic critical bounds and pass/fail thresholds, in the ego "
             "frame and in the map frame under an exact-rotation ego pose with symbolic translation; z3 decides the counting "
             "identities, the critical-region oracle and the TP rule on every path."),
+    "C06": ("4 C06", "The score classes are executed on boxes with exact rational rotations and symbolic centres/sizes/translations "
+            "(footprint vertices, centre distance incl. integer ROIs, plane distance in ego and map frame) and on rotated "
+            "pairs with symbolic relative translation through a symbolically executed polygon clipper; z3 decides exactness "
+            "against independent oracles, bounds, symmetry, IoU3D<=BEV and invariance; the clipper is compared with real "
+            "shapely on a witness of every path."),
 }
 NA = {
     "C16": "dataset loading goes through the nuScenes devkit and file I/O; a symbolic stand-in for the devkit would be the "
